@@ -381,8 +381,13 @@ def suites(tier, seed):
         seq = [rnd.choice(ALPHA + ["pass"] * 6 + ["cleanupok", "cleanupraise"]) for _ in range(n)]
         cases.append(mk_program(seq, rnd.choice(["scenario", "outline"]), rnd.choice([0, 1, 2]),
                                 rnd.random() < 0.3, rnd.random() < 0.2, rnd.random() < 0.4))
-    for _ in range(1500 if thorough else 300):
-        cases.append(rc.gen_program(rnd))
+    for i in range(1500 if thorough else 300):
+        p = rc.gen_program(rnd)
+        if i % 4 == 0:
+            # a placeholder in every step name: background steps of outline rows are then rebuilt per row
+            # (feature background, then rule background, then the row's own steps - all of them)
+            p["cfg"]["noise"] = {"step": "<x>"}
+        cases.append(p)
     seqs = {"name": "sequences", "cases": cases, "impl": rc.impl_run, "oracle": oracle, "nontrivial": nontrivial,
             "histogram": rc.histogram, "shrink": rc.shrink_program, "exhaustive": True,
             "bound": "all outcome sequences over %d kinds up to length %d (x variants), random up to length 10" % (len(ALPHA), L),
